@@ -1,4 +1,203 @@
-use crate::core::{Ctx, Outcome};
-use serde_json::Value;
-pub fn run(_ctx: &Ctx) -> Outcome { unimplemented!() }
-pub fn replay(_ctx: &Ctx, _r: &Value) -> i32 { 2 }
+//! C19 — tracker replies are read faithfully and tracker faults are survived.
+//! (a) E-ENUM: totality over the C16 alphabet strings; a grammar of structured replies against the
+//!     harness's own reading.
+//! (b) E-SYS (full-session world): every run of failed announces F^n·S (see fullworld.rs).
+
+use crate::core::{self, Ctx, Outcome};
+use crate::refb::{self, V};
+use crate::strings;
+use rdest::TrackerResp;
+use serde_json::{json, Value};
+
+fn get<'a>(d: &'a V, key: &[u8]) -> Option<&'a V> {
+    match d {
+        V::Dict(e) => e.iter().rev().find(|(k, _)| k == key).map(|(_, v)| v),
+        _ => None,
+    }
+}
+
+#[derive(Debug, PartialEq)]
+pub enum Want {
+    /// The reply carries a failure reason: must be reported as a failure.
+    Failure,
+    /// Well-formed reply: these peers, in this order.
+    Peers(Vec<(String, [u8; 20])>),
+    /// Not well-formed: only totality is demanded.
+    Unspecified,
+}
+
+pub fn read(top: &V) -> Want {
+    if let Some(V::Str(_)) = get(top, b"failure reason") {
+        return Want::Failure;
+    }
+    match (get(top, b"interval"), get(top, b"peers")) {
+        (Some(V::Int(i)), Some(V::List(l))) if *i >= 0 => Want::Peers(
+            l.iter()
+                .filter_map(|e| match (get(e, b"ip"), get(e, b"peer id"), get(e, b"port")) {
+                    (Some(V::Str(ip)), Some(V::Str(id)), Some(V::Int(port))) if *port >= 0 && id.len() == 20 => {
+                        let ip = String::from_utf8(ip.clone()).ok()?;
+                        Some((format!("{}:{}", ip, port), <[u8; 20]>::try_from(&id[..]).unwrap()))
+                    }
+                    _ => None,
+                })
+                .collect(),
+        ),
+        _ => Want::Unspecified,
+    }
+}
+
+pub fn check_reply(body: &[u8]) -> (bool, Option<(&'static str, String)>) {
+    let got = match core::catch(|| TrackerResp::from_bencode(body)) {
+        Err(p) => return (false, Some(("from_bencode-panic", format!("reply {}: {}", core::show(body), p)))),
+        Ok(r) => r,
+    };
+    let vals = match refb::parse_all(body) {
+        Ok(v) => v,
+        Err(_) => return (got.is_ok(), None), // malformed bencode: C16's subject
+    };
+    let top = match vals.iter().find(|v| matches!(v, V::Dict(_))) {
+        Some(t) => t,
+        None => return (got.is_ok(), None),
+    };
+    // replies made of several dictionaries are outside the alphabet
+    match (read(top), got) {
+        (Want::Failure, Ok(r)) => (
+            true,
+            Some((
+                if matches!(get(top, b"failure reason"), Some(V::Str(s)) if std::str::from_utf8(s).is_err()) {
+                    "non-utf8-failure-reason-read-as-success"
+                } else {
+                    "failure-reason-read-as-success"
+                },
+                format!("reply {} carries a failure reason but was read as {:?}", core::show(body), r),
+            )),
+        ),
+        (Want::Failure, Err(_)) => (false, None),
+        (Want::Peers(want), Ok(r)) => {
+            let peers = r.peers();
+            if peers == want {
+                (true, None)
+            } else {
+                (true, Some(("peers-differ", format!("reply {}: peers() = {:?}, reply lists {:?}", core::show(body), peers, want))))
+            }
+        }
+        (Want::Peers(_), Err(e)) => (false, Some(("well-formed-reply-rejected", format!("reply {}: {:?}", core::show(body), e)))),
+        (Want::Unspecified, r) => (r.is_ok(), None),
+    }
+}
+
+pub fn grammar() -> Vec<Vec<u8>> {
+    let id1: Vec<u8> = b"AAAAABBBBBCCCCCDDDDD".to_vec();
+    let id2: Vec<u8> = (0u8..20).map(|i| 0xf0 ^ i).collect();
+    let pe = |ip: Option<V>, id: Option<V>, port: Option<V>| {
+        let mut e = vec![];
+        if let Some(v) = ip {
+            e.push((b"ip".to_vec(), v));
+        }
+        if let Some(v) = id {
+            e.push((b"peer id".to_vec(), v));
+        }
+        if let Some(v) = port {
+            e.push((b"port".to_vec(), v));
+        }
+        V::Dict(e)
+    };
+    let entries: Vec<V> = vec![
+        pe(Some(refb::s("10.0.0.1")), Some(V::Str(id1.clone())), Some(V::Int(6881))),
+        pe(Some(refb::s("host.example")), Some(V::Str(id2.clone())), Some(V::Int(1))),
+        pe(None, Some(V::Str(id1.clone())), Some(V::Int(6881))),
+        pe(Some(refb::s("10.0.0.2")), None, Some(V::Int(6881))),
+        pe(Some(refb::s("10.0.0.3")), Some(V::Str(id1.clone())), None),
+        pe(Some(refb::s("10.0.0.4")), Some(V::Str(id1[..19].to_vec())), Some(V::Int(6881))),
+        pe(Some(refb::s("10.0.0.5")), Some(V::Str(id1.clone())), Some(V::Int(-1))),
+        V::Int(5),
+        pe(Some(V::Str(vec![0xff, 0xfe])), Some(V::Str(id1.clone())), Some(V::Int(6881))),
+        pe(Some(V::Int(7)), Some(V::Str(id1.clone())), Some(V::Int(6881))),
+        pe(Some(refb::s("10.0.0.6")), Some(V::Str(id1.clone())), Some(refb::s("6881"))),
+    ];
+    let mut peer_lists: Vec<Option<V>> = vec![None, Some(V::Int(0)), Some(V::List(vec![]))];
+    for a in &entries {
+        peer_lists.push(Some(V::List(vec![a.clone()])));
+        for b in &entries {
+            peer_lists.push(Some(V::List(vec![a.clone(), b.clone()])));
+            for c in &entries {
+                peer_lists.push(Some(V::List(vec![a.clone(), b.clone(), c.clone()])));
+            }
+        }
+    }
+    let intervals: Vec<Option<V>> = vec![Some(V::Int(900)), Some(V::Int(0)), None, Some(V::Int(-5)), Some(refb::s("900"))];
+    let failures: Vec<Option<V>> = vec![None, Some(refb::s("torrent not registered")), Some(V::Str(vec![])), Some(V::Str(vec![0xff, 0xfe])), Some(V::Int(1))];
+    let mut docs = vec![];
+    for p in &peer_lists {
+        for i in &intervals {
+            for f in &failures {
+                let mut top = vec![];
+                if let Some(f) = f {
+                    top.push((b"failure reason".to_vec(), f.clone()));
+                }
+                if let Some(i) = i {
+                    top.push((b"interval".to_vec(), i.clone()));
+                }
+                if let Some(p) = p {
+                    top.push((b"peers".to_vec(), p.clone()));
+                }
+                docs.push(refb::enc(&V::Dict(top)));
+            }
+        }
+    }
+    docs
+}
+
+pub fn run(ctx: &Ctx) -> Outcome {
+    let max_len = ctx.tier.pick(6, 7);
+    let accs = strings::for_all(max_len, || 0u64, |acc, s| {
+        *acc += 1;
+        if let (_, Some((class, summary))) = check_reply(s) {
+            ctx.violation(class, summary, json!({"kind": "reply", "hex": core::hex(s), "text": core::show(s)}));
+        }
+    });
+    let sigma: u64 = accs.iter().sum();
+    let docs = grammar();
+    let res = core::par_map(&docs, |_| core::set_quiet_panics(true), |_, _, d| check_reply(d));
+    let mut accepted = 0u64;
+    for (d, (ok, v)) in docs.iter().zip(res.iter()) {
+        if *ok {
+            accepted += 1;
+        }
+        if let Some((class, summary)) = v {
+            ctx.violation(class, summary.clone(), json!({"kind": "reply", "hex": core::hex(d), "text": core::show(d)}));
+        }
+    }
+    if accepted < 100 {
+        ctx.machinery_error(format!("vacuity: only {} structured replies accepted", accepted));
+    }
+
+    let mut o = Outcome::new("model_checking");
+    o.set("evaluations", json!(sigma + docs.len() as u64));
+    o.set("distinct_nontrivial", json!(accepted));
+    o.set("rule", json!(format!("(a) every string over the C16 alphabet of length 0..={} through TrackerResp::from_bencode (totality); structured replies = peers list of 0..3 entries drawn from 11 entry shapes (2 good, 9 malformed) or missing/ill-typed x 5 interval shapes x 5 failure-reason shapes (absent, text, empty, non-UTF-8, ill-typed), all distinct; non-trivial = structured replies read as success", max_len)));
+    o.set("sigma_strings", json!(sigma));
+    o.set("structured_replies", json!(docs.len()));
+    let picks = ctx.seeded_pick(docs.len(), 4);
+    o.set("samples", Value::Array(picks.iter().map(|i| json!({"reply": core::show(&docs[*i]), "read_as_success": res[*i].0})).collect()));
+    o.set("exhaustive", json!(true));
+    o.assume("a peers entry is malformed iff it is not a dictionary with a UTF-8 string ip, a 20-byte string peer id and a non-negative integer port; ports above 65535 and replies consisting of several dictionaries are outside the alphabet");
+    o
+}
+
+pub fn replay(_ctx: &Ctx, r: &Value) -> i32 {
+    let hexs = r["hex"].as_str().unwrap_or("");
+    let bytes: Vec<u8> = (0..hexs.len() / 2).map(|i| u8::from_str_radix(&hexs[2 * i..2 * i + 2], 16).unwrap()).collect();
+    println!("reply: {}", core::show(&bytes));
+    println!("from_bencode: {:?}", core::catch(|| TrackerResp::from_bencode(&bytes)));
+    match check_reply(&bytes).1 {
+        Some((class, s)) => {
+            println!("VIOLATION property=C19 replay=<this file>\n  class={} {}", class, s);
+            1
+        }
+        None => {
+            println!("holds for this reply");
+            0
+        }
+    }
+}
